@@ -210,6 +210,19 @@ func (c *c28Case) doGenerate(s *c28Sess) {
 	}
 	for _, id := range ids {
 		where := fmt.Sprintf("%s on %s", s.name, s.cur())
+		if id == c.typ.max {
+			// Saturation: like MySQL the sequence sticks at the type's maximum, and every later
+			// statement is offered that same value again (it fails with a duplicate key where the row
+			// exists and succeeds on a branch or snapshot that does not have it). The rules are
+			// asserted for values below the maximum only; at the maximum only "never lower again".
+			if _, dup := c.seen[id]; dup || (c.haveFloor && c.floor == id) {
+				c.cls["saturated_maximum_handed_out_again"] = true
+			}
+			c.seen[id] = where
+			c.gen = append(c.gen, id)
+			c.bump(id)
+			continue
+		}
 		if prev, dup := c.seen[id]; dup {
 			c.fail("[%s] %s: generated id %d was handed out before (%s)", s.name, q, id, prev)
 		}
@@ -265,6 +278,9 @@ func (c *c28Case) doExplicit(s *c28Sess) {
 	}
 	if e == 0 {
 		e = 1
+	}
+	if e > c.typ.max {
+		e = c.typ.max // the bound of the sequence may have run past the type (failed statements count)
 	}
 	c.tag++
 	q := fmt.Sprintf("INSERT INTO a (id,v) VALUES (%d,%d)", e, c.tag)
@@ -567,6 +583,7 @@ func TestVerif_C28(t *testing.T) {
 		"statement-level deterministic schedule; the per-table lock of SequenceTracker.Next under truly parallel inserts is outside this check",
 		"operations that reset the counter by contract are not generated: ALTER TABLE ... AUTO_INCREMENT, DROP/TRUNCATE, dolt_reset --hard",
 		"an explicit id counts for rule (3) once its transaction has committed (autocommit, COMMIT, BEGIN's implicit commit, dolt_commit, dolt_branch); uncommitted or rolled-back explicit ids impose nothing",
+		"at saturation (a generated or committed explicit id equals the type's maximum) dolt, like MySQL, keeps offering the maximum: that value may be handed out again on a branch or snapshot that lacks it; distinctness/monotonicity/rule (3) are asserted for ids below the maximum only (thorough tier reaches this)",
 		"a generating INSERT may fail only when the sequence can no longer fit the rows below the type's maximum (upper bound computed from every id ever attempted); near-maximum starts are thorough-tier only",
 		"one transaction writes to one branch; after a failed DML in an autocommit session the session issues ROLLBACK first (known finding C22-autocommit-stale-tx-after-failed-dml)")
 	defer rec.Write(t)
